@@ -106,7 +106,7 @@ def _build(case):
     rng = np.random.default_rng(int(case["dseed"]))
     pts = rng.normal(size=(n, d)) * float(case["scale"])
     w = rng.uniform(0.1, 1.0, n) if case["wmode"] == "pos" else rng.normal(size=n)
-    f = rng.normal(size=n)
+    f = rng.normal(size=n) * float(case.get("fscale", 1.0))
     cents = []
     for j, mode in enumerate(case["cmodes"]):
         rc = rng.normal(size=d) * float(case["scale"])
@@ -282,6 +282,7 @@ def _moments_strategy():
                 "cmodes": st.lists(st.sampled_from(["rand", "rand", "gridpoint", "origin", "near-prev", "same-as-prev"]), min_size=1, max_size=4),
                 "order": st.integers(lo, 6),
                 "np_int": st.booleans(),
+                "fscale": st.sampled_from([1.0, 1.0, 1.0, 1e-35, 1e-60, 1e25]),
                 "axis_pts": st.one_of(
                     st.just([]),
                     st.lists(st.tuples(st.sampled_from([0.0, 0.0, 1e-12, 1e-9, 1e-8, 1e-7, 1e-5, 1e-3]), st.sampled_from([1.0, -1.0, 0.3, -2.5])).map(list), min_size=1, max_size=3),
